@@ -19,6 +19,7 @@ import DateutilVerif.Proofs.RRuleStrRule
 import DateutilVerif.Proofs.RRuleStrFold
 import DateutilVerif.Proofs.RRuleStrTzid
 import DateutilVerif.Proofs.RRuleStrDate
+import DateutilVerif.Proofs.RRuleStrGenStr
 
 namespace C13
 open RRuleStr
@@ -562,5 +563,22 @@ theorem date_text_read_back (cls : Char → PM.CClass) [PM.AsciiOK cls] (yf : Bo
 
 example : showDT (sixOf ⟨999, 1, 2, 3, 4, 5, 0⟩) = lit "09990102T030405" := by
   rw [showDT_eq_renderCompact _ (by decide)]; decide
+
+/-! ## 13. the printer as written: `rrule.__str__` translated from source -/
+
+/-- **`Gen.rruleStr` — the WHOLE method `rrule.__str__` re-translated from source on every run (DTSTART with the zero-padded year,
+    FREQ from the dumped `FREQNAMES`, INTERVAL unless 1, WKST under the repaired condition `self._wkst or calendar.firstweekday()`,
+    COUNT, the zero-padded UNTIL, the weekday conversion loop, the BY parts of `_original_rule` in the order of the method's table)
+    — equals the model's `toStr`** on every rule in printable form. -/
+theorem gen_str_eq_model (x : StrIn) (hx : Printable x) : Gen.rruleStr x = toStr x := gen_rruleStr_eq_toStr x hx
+
+/-- hence the round trip holds of the printer AS WRITTEN: `str_roundtrip` with the source translation in place of `toStr` -/
+theorem str_roundtrip_source (x : StrIn) (hx : Printable x) (t : Nat × Nat × Nat × Nat × Nat × Nat) (ht : x.dtstart = some t)
+    (o : Opts) (hu : o.unfold = false) (hf : o.forceset = false) (hc : o.compatible = false) (kw : Bool) :
+    parseRfc (Gen.rruleStr x) o kw = .ok (.rule (argsOf o.po x) (some (showDT t, [], o.po)) o.cache) := by
+  rw [gen_str_eq_model x hx]; exact str_roundtrip x hx t ht o hu hf hc kw
+
+example : Gen.rruleStr sample = toStr sample := gen_str_eq_model sample (by
+  constructor <;> first | decide | (intro l h; cases h; decide))
 
 end C13
